@@ -6,6 +6,7 @@ Template directives (column 0):
   @include FILE                     prelude file from /verif/prelude (verbatim, trusted/spec text)
   @rules ID ID ...                  rule groups (rules.py) applied to every following extraction
   @cast "expr" CONVERTER            R2 table entry:  `expr as f64` -> F::CONVERTER(expr)
+  @prooffn[id|Cxx] ... @end         a proof fn counted as an obligation of the listed properties
   @gen NAME ARGS                    spec text generated from the working tree by vx/gen.py (code-derived shapes)
   @verbatim ... @end                hand-written Verus text (spec fns, shims, impl wrappers, lemmas)
   @struct FILE NAME                 extract a struct definition
@@ -164,6 +165,25 @@ def build(unit_path, repo, canary=False):
         elif d == "@cast":
             m = re.match(r'\s*"([^"]*)"\s+(\w+)', arg)
             u.casts[m.group(1)] = m.group(2); i += 1
+        elif d.startswith("@prooffn"):
+            # a proof function that IS an obligation of the listed properties (a consequence the property states, proved from contracts)
+            cid, props, _ = _parse_label(d[len("@prooffn"):])
+            j = i + 1
+            buf = []
+            while tmpl[j] != "@end":
+                buf.append(tmpl[j]); j += 1
+                if j >= n:
+                    raise ExtractError("%s:%d: unterminated @prooffn" % (unit_path, i + 1))
+            text = "\n".join(buf)
+            mname = re.search(r"proof\s+fn\s+(\w+)", text)
+            if not mname:
+                raise ExtractError("%s:%d: @prooffn without a proof fn" % (unit_path, i + 1))
+            cl = Clause("lemma", cid, props, text, mname.group(1))
+            u.clauses.append(cl)
+            first = len(u.out) + 1
+            u.emit(text, ("clause", cl))
+            cl.lines = list(range(first, len(u.out) + 1))
+            i = j + 1
         elif d == "@gen":
             gname, _, gargs = arg.strip().partition(" ")
             u.emit(GEN.GENERATORS[gname](repo, gargs), ("spec", "%s:%d (generated by vx/gen.py:%s from the working tree)" % (os.path.basename(unit_path), i + 1, gname)))
